@@ -14,17 +14,25 @@ BOUNDS = {
     "quick": {"programs": "ill-typed-on-purpose skeletons: 53 unary/member/index/macro/function contexts x 6 main value kinds (a rotating quarter of them on 6 more kinds), "
                           "14 binary operators x all same-kind pairs and a deterministic twelfth of the mixed-kind pairs, plus data-dependent special-value programs (those feeding fp.div/fp.mul into a conversion: thorough only); both runners",
               "data": "all values inside each kind (int64, uint64, binary64 incl. inf/NaN, strings <= 2, bytes <= 2, lists <= 3, 2-key maps)", "path budget": 40,
-              "parse errors": "CELParser.parse with the Lark parser stubbed to raise each Lark exception class with symbolic line/column; 70 malformed strings via the real parser (enumeration)"},
-    "thorough": {"programs": "every context on all 12 kinds; all 144 kind pairs for every binary operator", "data": "same", "path budget": 150, "parse errors": "same"},
+              "parse errors": "CELParser.parse with the Lark parser stubbed to raise each Lark exception class with symbolic line/column; 70 malformed strings via the real parser (enumeration)",
+              "compile() on symbolic text": "every text of 0..2 Unicode scalar values (each code point a symbolic integer over U+0000..U+10FFFF minus surrogates): the real Lark lexer loop, "
+                                            "line counter, token callbacks and LALR driver run on it with the scanners' compiled regexes replaced by the concolic matcher"},
+    "thorough": {"programs": "every context on all 12 kinds; all 144 kind pairs for every binary operator", "data": "same", "path budget": 150, "parse errors": "same",
+                 "compile() on symbolic text": "every text of 0..3 code points (81 first/second-character classes distribute the work; path budget 2500 per class pair, exhaustion reported)"},
 }
-OUTSIDE = ["`all strings` for compile(): Lark's lexer/LALR driver on a symbolic string is not encodable (C re); only its exception interface is made symbolic",
+OUTSIDE = ["compile() on texts longer than the bound (2 / 3 code points): beyond it only Lark's exception interface is symbolic (stubbed Lark errors with symbolic positions) plus enumerated malformed strings",
+           "the message excerpt built by Lark's get_context() is formatting: it reads a concrete copy of the text (stub, listed in assumptions)",
            "RecursionError at CEL's nesting minimums (a concrete resource limit, no solver content)"]
-ASSUMPTIONS = ["activation values are CEL values of the stated kinds (the documented precondition of evaluate)"]
+ASSUMPTIONS = ["activation values are CEL values of the stated kinds (the documented precondition of evaluate)",
+               "compile() on symbolic text: Lark's scanners match through vf/sym/regex.py (generated from the scanners' own compiled patterns, asserted equal to `re` on every match); "
+               "STUB: lark UnexpectedInput.get_context (message excerpt) formats a concrete copy of the text"]
 TRUSTED = ["z3 5.1", "CPython 3.12", "vf.sym shadows", "Lark's documented exception attributes (line, column, pos_in_stream)"]
 MANIFEST = {
     "text": "Symbolic execution of deliberately ill-typed programs under both runners with symbolic data of every value kind: on every feasible path the outcome must be a value "
             "or CELEvalError whose str()/repr() render; program construction must not raise. Special values (inf, NaN, MIN64, empty containers) are reached by the solver through "
-            "path conditions, not by listing them. CELParser.parse is executed with the Lark call stubbed to raise each Lark exception with symbolic positions.",
+            "path conditions, not by listing them. CELParser.parse is executed with the Lark call stubbed to raise each Lark exception with symbolic positions, and on "
+            "symbolic texts of up to 2 (quick) / 3 (thorough) code points through the real Lark lexer and LALR driver: every path ends in a tree or a CELParseError whose line/column "
+            "is proved to be a position of the text.",
     "note": "Program skeletons enumerated (kinds x contexts), data symbolic. The parser itself (Lark, C re) is outside; malformed-string cases are an enumeration and labelled so.",
     "technique": "symbolic execution of the real Python byte-code with shadow builtins + z3; exception-class obligations per path; counterexample replay",
     "design_ref": "DESIGN.md §7 C04",
@@ -50,10 +58,115 @@ def all_programs(tier):
 NT = 64
 
 
+# ----------------------------------------------------------------------------- compile() on symbolic text
+# classes of the first character: the partition only distributes the work (every class is explored), it is not a restriction
+FIRST_CLASSES = [("ws", [9, 10, 12, 13, 32]), ("digit", None), ("lower", None), ("upper_", None), ("quote", [34, 39]),
+                 ("op1", [33, 37, 38, 40, 41, 42, 43]), ("op2", [44, 45, 46, 47, 58, 60, 61]), ("op3", [62, 63, 91, 93, 123, 124, 125]), ("other", None)]
+
+
+def _first_class_pre(name, members, c):
+    if members is not None:
+        return z3.Or([c == m for m in members])
+    if name == "digit":
+        return z3.And(c >= 48, c <= 57)
+    if name == "lower":
+        return z3.And(c >= 97, c <= 122)
+    if name == "upper_":
+        return z3.Or(z3.And(c >= 65, c <= 90), c == 95)
+    listed = [m for _, ms in FIRST_CLASSES if ms for m in ms]
+    return z3.And(z3.Not(z3.Or([c == m for m in listed])), z3.Not(z3.And(c >= 48, c <= 57)), z3.Not(z3.And(c >= 97, c <= 122)),
+                  z3.Not(z3.And(c >= 65, c <= 90)), c != 95)
+
+
+def _symtext_tasks(tier):
+    ts = [{"what": "symtext", "n": 0, "cls": None}, {"what": "symtext", "n": 1, "cls": None}]
+    for name, _ in FIRST_CLASSES:
+        ts.append({"what": "symtext", "n": 2, "cls": name})
+    if tier != "quick":
+        for name, _ in FIRST_CLASSES:
+            for name2, _ in FIRST_CLASSES:
+                ts.append({"what": "symtext", "n": 3, "cls": name, "cls2": name2})
+    return ts
+
+
 def tasks(tier):
     ts = [{"tier": tier, "stride": i} for i in range(NT)]
     ts.append({"what": "parse"})
+    ts += _symtext_tasks(tier)
     return ts
+
+
+def _symtext_harness(n, cls, cls2=None):
+    """CELParser.parse on a text of n symbolic code points: the real Lark lexer loop, line counter, token callbacks and LALR driver
+    run with their scanners' regexes replaced by the concolic matcher (vf/sym/larkshim.py)."""
+    celpy, ct, ev = common.mods()
+    import celpy.celparser as cp
+    from ..sym import larkshim
+    from ..sym.strs import SStr, mks
+    common.make_program("1", "interp")
+    parser = cp.CELParser()
+    larkshim.install(larkshim.parser_of(parser, cp))
+    # formatting stub: Lark's get_context() only renders the message excerpt (slicing + expandtabs); it reads a concrete
+    # copy of the text, so the message is the one of the current model and adds no path constraint
+    from lark.exceptions import UnexpectedInput
+    from ..sym.strs import sraw
+    if not getattr(UnexpectedInput.get_context, "_vf_stub", False):
+        real_gc = UnexpectedInput.get_context
+
+        def get_context(self, text, span=40):
+            return real_gc(self, sraw(text) if isinstance(text, str) else text, span)
+        get_context._vf_stub = True
+        UnexpectedInput.get_context = get_context
+    names = [f"c{i}" for i in range(n)]
+    cs = [z3.Int(x) for x in names]
+    pre = []
+    for c in cs:
+        pre += [c >= 0, c <= 0x10FFFF, z3.Not(z3.And(c >= 0xD800, c <= 0xDFFF))]
+    fc = dict(FIRST_CLASSES)
+    if cls is not None:
+        pre.append(_first_class_pre(cls, fc[cls], cs[0]))
+    if cls2 is not None:
+        pre.append(_first_class_pre(cls2, fc[cls2], cs[1]))
+
+    def inside(line, col):
+        """(line, col) is the 1-based position of some offset 0..n of the text (the end-of-text position included)"""
+        alts = []
+        for pos in range(n + 1):
+            nl = sum([z3.If(cs[k] == 10, 1, 0) for k in range(pos)]) if pos else z3.IntVal(0)
+            # column = pos - (index of the last newline before pos), 1-based
+            start = z3.IntVal(0)
+            for k in range(pos):
+                start = z3.If(cs[k] == 10, k + 1, start)
+            alts.append(z3.And(line == 1 + nl, col == pos - start + 1))
+        return z3.Or(alts)
+
+    def run(vals):
+        text = mks(SStr, cs, "".join(chr(vals[x]) for x in names)) if n else ""
+        try:
+            parser.parse(text)
+            return [Ob("C04/compile-symbolic/tree-or-parse-error", z3.BoolVal(True), note="tree")]
+        except cp.CELParseError as ex:
+            obs = [Ob("C04/compile-symbolic/tree-or-parse-error", z3.BoolVal(True), note="CELParseError")]
+            if ex.line is None or ex.column is None:
+                obs.append(Ob("C04/compile-symbolic/position-inside-text", z3.BoolVal(False), note="CELParseError without line/column"))
+            else:
+                obs.append(Ob("C04/compile-symbolic/position-inside-text", inside(tm(ex.line), tm(ex.column)),
+                              note=f"line {int(ex.line)} column {int(ex.column)}"))
+            bad = skel.render_error(ex)
+            obs.append(Ob("C04/compile-symbolic/renders", z3.BoolVal(bad is None), note=str(bad)))
+            return obs
+        except Exception as ex:  # noqa: BLE001
+            return [Ob("C04/compile-symbolic/tree-or-parse-error", z3.BoolVal(False), note=f"{type(ex).__name__} escaped compile: {ex}"[:200],
+                       tags={"exc": type(ex).__name__})]
+
+    def witness(vals):
+        return {"check": "c04.compile_any", "args": {"text": "".join(chr(vals[x]) for x in names)}}
+
+    hid = f"C04/compile-symbolic/len{n}" + (f"/{cls}" if cls else "") + (f"/{cls2}" if cls2 else "")
+    h = Harness(id=hid, vars=dict(zip(names, cs)) or {"dummy": z3.Int("dummy")}, pre=pre or [z3.Int("dummy") == 0], run=run, witness=witness,
+                max_paths=4000 if n < 3 else 2500)
+    h.max_seconds = 100 if n < 3 else 400
+    return h
 
 
 def run_task(task, kf):
@@ -61,6 +174,8 @@ def run_task(task, kf):
     out, first = [], True
     if task.get("what") == "parse":
         return [explore.explore(h, kf, profile_root=loader.SRC) for h in _parse_harnesses()]
+    if task.get("what") == "symtext":
+        return [explore.explore(_symtext_harness(task["n"], task["cls"], task.get("cls2")), kf, profile_root=loader.SRC)]
     budget = 40 if task["tier"] == "quick" else 150
     for src in all_programs(task["tier"])[task["stride"]::NT]:
         for runner in common.RUNNERS:
